@@ -109,7 +109,7 @@ def sampler(a):
     return {'rows': rows, 'stream': stream, 'source_rows': src_rows}
 
 
-def _fit_once(a):
+def _fit_once(a, prefit=False):
     adjacency = mk_matrix(a['adjacency'])
     features = _features(a['features'])
     gnn = GNNClassifier(dims=a['dims'], layer_types=a['layer_types'], activations=a['activations'],
@@ -118,8 +118,18 @@ def _fit_once(a):
                         loss=a['loss'], optimizer=a['optimizer'], learning_rate=a.get('learning_rate', 0.01),
                         early_stopping=a['early_stopping'], patience=a.get('patience', 10))
     labels = {int(k): int(v) for k, v in a['labels'].items()}
-    gnn.fit(adjacency, features, labels, n_epochs=a['n_epochs'], validation=a.get('validation', 0),
-            random_state=a['random_state'])
+    if prefit:
+        # the object has been trained before (other labels, other seed); fit(reinit=True, random_state=s) must then give
+        # what a fresh object gives with random_state=s
+        vals = sorted(set(labels.values()))
+        other = {k: vals[(vals.index(v) + 1) % len(vals)] for k, v in labels.items()}
+        gnn.fit(adjacency, features, other, n_epochs=max(2, a['n_epochs'] // 2), validation=a.get('validation', 0),
+                random_state=a['random_state'] + 17)
+        gnn.fit(adjacency, features, labels, n_epochs=a['n_epochs'], validation=a.get('validation', 0),
+                random_state=a['random_state'], reinit=True)
+    else:
+        gnn.fit(adjacency, features, labels, n_epochs=a['n_epochs'], validation=a.get('validation', 0),
+                random_state=a['random_state'])
     res = {'labels': tolist(gnn.labels_), 'output': np.asarray(gnn.output_).tolist(),
            'predict': tolist(gnn.predict()), 'epochs': len(gnn.history_['loss']),
            'n_train': int(np.sum(gnn.train_mask))}
@@ -134,4 +144,9 @@ def _fit_once(a):
 
 def classifier(a):
     """Two fresh GNNClassifier objects fitted with identical arguments and random_state."""
-    return {'first': _fit_once(a), 'second': _fit_once(a)}
+    out = {'first': _fit_once(a), 'second': _fit_once(a)}
+    try:
+        out['refit'] = _fit_once(a, prefit=True)
+    except Exception as e:  # noqa
+        out['refit'] = {'err': type(e).__name__, 'msg': str(e)[:200]}
+    return out
